@@ -60,7 +60,13 @@ def lint_file(
     project = obj.project
     subset_files = {Path(file_) for file_ in files}
     for file_ in subset_files:
-        if not file_.resolve().is_relative_to(project.root.resolve()):
+        # A symbolic link is where its directory entry is, wherever it points.
+        location = (
+            file_.parent.resolve() / file_.name
+            if file_.is_symlink()
+            else file_.resolve()
+        )
+        if not location.is_relative_to(project.root.resolve()):
             raise click.UsageError(
                 _("'{file}' is not inside of '{root}'.").format(
                     file=file_, root=project.root
